@@ -11,15 +11,16 @@ import (
 // PredGen generates well-typed trees of the documented core language (what the
 // checker accepts today is stated in DESIGN Appendix E).
 type PredGen struct {
-	R        *rt.Rand
-	KeyLits  []string // literals for comparisons with key
-	ValLits  []string // literals for comparisons with value
-	IntVals  bool     // stored values are plain integers
-	FltVals  bool     // stored values are plain decimals
-	Avoid    map[string]bool
-	FloatEq  bool // allow = / != between float operands
-	NoRegex  bool
-	NoKeyPin bool // do not generate key-pinning atoms (opaque predicates only)
+	R         *rt.Rand
+	KeyLits   []string // literals for comparisons with key
+	ValLits   []string // literals for comparisons with value
+	IntVals   bool     // stored values are plain integers
+	FltVals   bool     // stored values are plain decimals
+	Avoid     map[string]bool
+	FloatEq   bool // allow = / != between float operands
+	NoRegex   bool
+	NoKeyPin  bool // do not generate key-pinning atoms (opaque predicates only)
+	ForceKind int  // > 0: the first atom generated is of this kind (12..19: the key-region constructs)
 }
 
 var cmpS = []string{"=", "!=", "^=", "~=", ">", ">=", "<", "<="}
@@ -184,8 +185,30 @@ func sameField(a, b *Node) bool {
 // Atom returns a Boolean atom.
 func (g *PredGen) Atom(depth int) *Node {
 	r := g.R
+	force := g.ForceKind
 	for {
-		switch r.Intn(19) {
+		kind := r.Intn(20)
+		if force > 0 {
+			kind, force = force, 0 // once; if its preconditions fail, any kind will do
+		}
+		switch kind {
+		case 19: // a lower bound at the empty literal (every key satisfies it) with a point pin
+			if g.NoKeyPin || len(g.KeyLits) == 0 {
+				continue
+			}
+			lo := Bin([]string{">=", ">"}[r.Intn(2)], Key(), Str(""))
+			if r.Chance(1, 4) && !g.Avoid["literal-left-key-compare"] {
+				lo = Bin([]string{"<=", "<"}[r.Intn(2)], Str(""), Key())
+			}
+			l := g.KeyLits[r.Intn(len(g.KeyLits))]
+			var pin *Node = Bin("=", Key(), Str(l))
+			if r.Bool() {
+				pin = In(Key(), Str(l), Str(g.KeyLits[r.Intn(len(g.KeyLits))]))
+			}
+			if r.Bool() {
+				return And(lo, pin)
+			}
+			return And(pin, lo)
 		case 18: // two concatenations that start at the same field, alive at the same time
 			if g.NoKeyPin {
 				continue
